@@ -39,11 +39,12 @@ def ns(i: int, sub: Dict[str, Any], **kw: Any) -> tuple:
 TREES: Dict[str, Dict[str, Any]] = {
     'T1': {'a': leaf(1), 'ab': leaf(2),
            'ns': ns(1, {'x': leaf(3), 'xy': leaf(4), 'sub': ns(2, {'z': leaf(5), 'zz': leaf(6)})}),
-           'nsx': ns(3, {'x': leaf(7)}, dynamic=True), 'n': ns(4, {'x': leaf(8)}, populate_defaults=False)},
+           'nsx': ns(3, {'x': leaf(7)}, dynamic=True), 'n': ns(4, {'x': leaf(8)}, populate_defaults=False),
+           'e': ns(5, {}, dynamic=True)},
     'T2': {'abc': leaf(1), 'ab': ns(1, {'c': leaf(2), 'd': leaf(3)}), 'a': ns(2, {'b': ns(3, {'c': leaf(4)})}),
            'abcd': ns(4, {'e': leaf(5)}, valid_type=int)},
     'T3': {'p': ns(1, {'q': ns(2, {'r': ns(3, {'s': leaf(1)}), 'rs': leaf(2)}), 'qr': leaf(3)}),
-           'pq': ns(4, {'r': leaf(4)}), 'p_q': leaf(5)},
+           'pq': ns(4, {'r': leaf(4), 'e': ns(5, {})}), 'p_q': leaf(5)},
 }
 DEST_PRE = {'zz_keep': leaf(9), 'zn_keep': ns(9, {'k': leaf(10)})}
 NAMESPACES = (None, 't', 't.u')
